@@ -10,6 +10,12 @@
  *                     t uncaught throw (Exception_Error: exit(EXIT_FAILURE))
  *                     s exit(3) from a deeper call, non-zero status, no other thread ever started
  *                     j a worker Thread allocated and ended first (its own collector), then exit(0)
+ *                   after exception_signals():
+ *                     T / I / F  uncaught signal exception: raise(SIGTERM / SIGINT / SIGFPE) outside any try
+ *                     a a signal exception (SIGINT) caught in a try-block, then normal return from main
+ *                     b a signal exception caught, later an ordinary uncaught throw
+ *                     c a signal exception caught, later exit(0) from a nested call
+ *                   (a process that ends without running its exit handlers — _Exit, abort — prints no ledger)
  *   argv[2] = objects, space separated:
  *        p<id>  plain managed probe            o<id>  managed probe owned by a real Box
  *        c<id>  managed probe owned by a Box stored in a (managed) Array of Box
@@ -19,6 +25,7 @@
  * Linked with -Wl,--wrap=fclose to count the File's fclose. */
 #include "Cello.h"
 #include <unistd.h>
+#include <signal.h>
 
 #define MAXID 1024
 struct XProbe { var val; int64_t id; int64_t isbox; int64_t stamp; };
@@ -90,6 +97,19 @@ int main(int argc, char** argv) {
       tracked = ((struct File*)file)->file; unlink(path);
       print_to(file, 0, "payload %i\n", $I(7));
     }
+  }
+  if (route == 'T' || route == 'I' || route == 'F' || route == 'a' || route == 'b' || route == 'c') {
+    exception_signals();
+    if (route == 'T') { reached = 1; raise(SIGTERM); }
+    if (route == 'I') { reached = 1; raise(SIGINT); }
+    if (route == 'F') { reached = 1; raise(SIGFPE); }
+    /* the advertised use: a signal turned into an exception and handled */
+    volatile int handled = 0;
+    try { raise(SIGINT); } catch (e) { handled = 1; }
+    if (!handled) return 8;
+    if (route == 'a') { reached = 1; return 0; }
+    if (route == 'b') { route = 't'; }
+    if (route == 'c') { route = 'e'; }
   }
   if (route == 'j') { var t = new_raw(Thread, $(Function, worker)); call(t); join(t); del_raw(t); route = 'e'; }
   if (route == 'r') { reached = 1; return 0; }
